@@ -695,9 +695,9 @@ func c24(c *Ctx) {
 		"with argument lists (numeric incl. boundary/hex/octal, non-numeric, negative, empty, escape-bearing; fewer/equal/more than the directives consume), " +
 		"echo option/argument lists, plus a malformed byte stream; non-trivial = a consuming directive or an escape is present; distinct by exact words"
 	var jobs []c24Job
-	budget := 300
+	budget := 250
 	if c.Thorough() {
-		budget = 1400
+		budget = 600
 	}
 	addJob := func(cmd string, words []string, class int, interp string, known bool) {
 		if known || len(jobs) < budget {
@@ -795,7 +795,7 @@ func c24(c *Ctx) {
 	}
 
 	// ---- bash leg ----
-	res := parallelMap(len(jobs), 8, func(i int) string {
+	res := parallelMap(len(jobs), 4, func(i int) string {
 		j := jobs[i]
 		return c24ShowShell(c24RunBash(c, c24Script(j.cmd, j.words)))
 	})
